@@ -82,6 +82,9 @@ type Path struct {
 	FastDecided  int
 	Fallback     func() []*sym.Solver // lazily started alternative back ends
 	FallbackUsed int
+	pendingVal   uint64
+	implied      map[*sym.Term]bool // conditions already implied by the path condition
+	Emit         func(WorkItem) // publishes a newly discovered alternative at once
 }
 
 func (m *Machine) ctx() *sym.Ctx { return m.path.Ctx }
@@ -134,6 +137,10 @@ func (m *Machine) branch(cond *sym.Term) bool {
 	if p.MaxDecisions > 0 && idx >= p.MaxDecisions {
 		panic(pathAbort{PathBudget, "decision budget exceeded"})
 	}
+	if known, ok := p.implied[cond]; ok {
+		p.Decisions = append(p.Decisions, Decision{Taken: known, Forced: true})
+		return known
+	}
 	v := p.ev.Eval(cond) != 0
 	if fv, forced, altModel, ok := p.fastDecide(cond, v); ok {
 		p.FastDecided++
@@ -142,7 +149,7 @@ func (m *Machine) branch(cond *sym.Term) bool {
 			alt := make([]Decision, idx+1)
 			copy(alt, p.Decisions)
 			alt[idx] = Decision{Taken: !fv}
-			p.NewWork = append(p.NewWork, WorkItem{Prefix: alt, Model: altModel})
+			p.emit(WorkItem{Prefix: alt, Model: altModel})
 		}
 		p.Decisions = append(p.Decisions, d)
 		if !forced {
@@ -165,6 +172,8 @@ func (m *Machine) branch(cond *sym.Term) bool {
 	switch res {
 	case sym.Unsat:
 		d.Forced = true
+		p.implied[cond] = v
+		p.implied[p.Ctx.Not(cond)] = !v
 	case sym.Sat, sym.Unknown:
 		if res == sym.Unknown {
 			p.Unknowns++
@@ -172,7 +181,7 @@ func (m *Machine) branch(cond *sym.Term) bool {
 		alt := make([]Decision, idx+1)
 		copy(alt, p.Decisions)
 		alt[idx] = Decision{Taken: !v}
-		p.NewWork = append(p.NewWork, WorkItem{Prefix: alt, Model: mod})
+		p.emit(WorkItem{Prefix: alt, Model: mod})
 	}
 	p.Decisions = append(p.Decisions, d)
 	if !d.Forced {
@@ -249,15 +258,10 @@ func (m *Machine) branchVal(cond *sym.Term, v uint64) bool {
 		}
 		return d.Taken
 	}
+	p.pendingVal = v
 	r := m.branch(cond)
+	p.pendingVal = 0
 	p.Decisions[idx].Val = v
-	// the alternative pushed by branch (if any) must carry Val too
-	if n := len(p.NewWork); n > 0 {
-		w := p.NewWork[n-1]
-		if len(w.Prefix) == idx+1 {
-			w.Prefix[idx].Val = v
-		}
-	}
 	return r
 }
 
@@ -375,6 +379,12 @@ func (m *Machine) newVar(name string, s sym.Sort, kind string) *sym.Term {
 }
 
 func (p *Path) assertPC(t *sym.Term) {
+	p.implied[t] = true
+	if t.Op == sym.OpNot {
+		p.implied[t.Args[0]] = false
+	} else {
+		p.implied[p.Ctx.Not(t)] = false
+	}
 	p.pc = append(p.pc, t)
 	p.Solver.Assert(t)
 	p.noteConstraint(t)
@@ -569,4 +579,54 @@ func (p *Path) solve(extra *sym.Term, vars []*sym.Term) (sym.Result, map[string]
 		}
 	}
 	return res, mod
+}
+
+func (p *Path) emit(w WorkItem) {
+	if p.pendingVal != 0 && len(w.Prefix) > 0 {
+		w.Prefix[len(w.Prefix)-1].Val = p.pendingVal
+	}
+	if p.Emit != nil {
+		p.Emit(w)
+		return
+	}
+	p.NewWork = append(p.NewWork, w)
+}
+
+// freshChoice enumerates the n values of a fresh, otherwise unconstrained
+// variable v (already assumed < n) by emitting all alternatives at once.
+func (m *Machine) freshChoice(v *sym.Term, n int) int {
+	p := m.path
+	idx := len(p.Decisions)
+	if idx < len(p.Prefix) {
+		return int(m.concretize(v))
+	}
+	for j := 1; j < n; j++ {
+		alt := make([]Decision, idx, idx+j+1)
+		copy(alt, p.Decisions)
+		for i := 0; i < j; i++ {
+			alt = append(alt, Decision{Taken: false, Val: uint64(i)})
+		}
+		alt = append(alt, Decision{Taken: true, Val: uint64(j)})
+		mod := make(map[string]uint64, len(p.Model)+1)
+		for k, x := range p.Model {
+			mod[k] = x
+		}
+		mod[v.Name] = uint64(j)
+		pv := p.pendingVal
+		p.pendingVal = 0
+		p.emit(WorkItem{Prefix: alt, Model: mod})
+		p.pendingVal = pv
+	}
+	// take 0 on this path
+	if p.Model[v.Name] != 0 {
+		mod := make(map[string]uint64, len(p.Model)+1)
+		for k, x := range p.Model {
+			mod[k] = x
+		}
+		mod[v.Name] = 0
+		p.setModel(mod)
+	}
+	p.Decisions = append(p.Decisions, Decision{Taken: true, Val: 0})
+	p.assertPC(p.Ctx.Eq(v, p.Ctx.Const(v.Sort, 0)))
+	return 0
 }
